@@ -324,7 +324,7 @@ def in_documented_range(fam, a):
         "full_reversals": lambda: n >= 2, "signed_reversals": lambda: n >= 1,
         "lrx": lambda: n >= 3 and 1 <= g(1, 1) < n, "lx": lambda: n >= 3, "top_spin": lambda: n >= g(1, 4) >= 2,
         "coxeter": lambda: n >= 2, "cyclic_coxeter": lambda: n >= 2, "pancake": lambda: n >= 2,
-        "cubic_pancake": lambda: n >= 2 and 1 <= g(1) <= 7, "burnt_pancake": lambda: n >= 1,
+        "cubic_pancake": lambda: n >= 2 and 1 <= g(1) <= 7 and (n >= 3 or g(1) in (1, 3, 5)), "burnt_pancake": lambda: n >= 1,
         "three_cycles": lambda: n >= 3, "three_cycles_0ij": lambda: n >= 3, "three_cycles_01i": lambda: n >= 3,
         "all_cycles": lambda: n >= 2, "lsl_cycles": lambda: n >= 3, "wrapped_k_cycles": lambda: n >= 2 and 2 <= g(1) <= n,
         "larx": lambda: n >= 2, "increasing_k_cycles": lambda: n >= 1 and 1 <= g(1) <= n,
